@@ -677,6 +677,57 @@ def gen_slice():
 
 
 # ------------------------------------------------------------------------------------------
+# unit: Consts  (tables / thresholds / guard skeletons used by several models)
+
+
+def int_literals(node):
+    return [int(l["value"]) for l in find_all(node, lambda x: x.get("kind") == "IntegerLiteral")]
+
+
+def fn_decl(docs, name, with_body=True):
+    for d in docs:
+        if d.get("kind") in ("FunctionDecl", "CXXMethodDecl") and d.get("name") == name:
+            if not with_body or any(c.get("kind") == "CompoundStmt" for c in d.get("inner", [])):
+                return d
+    raise Unsupported("function %s not found" % name)
+
+
+def gen_consts():
+    out = [HEADER % "lib/primes.cpp (PRIMES), lib/fft/primes-fft.h (MAX_DFT_SIZE), lib/fft/fft.cpp (cache bypass sets), CMakeLists.txt (cache size)",
+           "import DspVerif.Scalar\nnamespace Dsp\nnamespace Gen\n"]
+    # PRIMES table
+    docs = clang_ast('#include "primes.cpp"\n', "PRIMES")
+    vd = [d for d in docs if d.get("kind") == "VarDecl" and d.get("name") == "PRIMES"]
+    if len(vd) != 1:
+        raise Unsupported("PRIMES table not found")
+    tbl = int_literals([c for c in vd[0]["inner"] if c.get("kind") == "InitListExpr"][0])
+    out.append("/-- `PRIMES` of lib/primes.cpp -/\ndef primesTable : List Nat := %s\n" % str(tbl).replace(" ", ""))
+    # MAX_DFT_SIZE
+    docs = clang_ast('#include "fft/primes-fft.h"\n', "MAX_DFT_SIZE")
+    vd = [d for d in docs if d.get("kind") == "VarDecl" and d.get("name") == "MAX_DFT_SIZE"]
+    if len(vd) != 1:
+        raise Unsupported("MAX_DFT_SIZE not found")
+    out.append("/-- `MAX_DFT_SIZE`: boundary for calculating a prime-length DFT directly instead of by CZT -/\ndef maxDftSize : Nat := %d\n" % int_literals(vd[0])[0])
+    # bypass guards of the two plan factories (first `if` of the function)
+    for fname, lname in (("create_fft_plan", "bypassC"), ("create_rfft_plan", "bypassR")):
+        docs = clang_ast('#define DSPLIB_FFT_CACHE_SIZE 4\n#include "fft/fft.cpp"\n', fname)
+        f = fn_decl(docs, fname)
+        first = [c for c in body_of(f)["inner"]][0]
+        if first.get("kind") != "IfStmt" or not Tr().ends(first["inner"][1]):
+            raise Unsupported("%s: does not start with the small-size bypass" % fname)
+        cond = Tr().e(first["inner"][0])
+        out.append("/-- lengths for which `%s` bypasses the cache -/\ndef %s (n : Int) : Prop := %s\ninstance (n : Int) : Decidable (%s n) := by unfold %s; infer_instance\n" % (fname, lname, cond, lname, lname))
+    # default cache size
+    cm = open(os.path.join(REPO, "CMakeLists.txt")).read()
+    m = re.search(r'set\(DSPLIB_FFT_CACHE_SIZE\s+"(\d+)"', cm)
+    if not m:
+        raise Unsupported("DSPLIB_FFT_CACHE_SIZE default not found in CMakeLists.txt")
+    out.append("/-- default of the CMake option `DSPLIB_FFT_CACHE_SIZE` -/\ndef fftCacheSizeDefault : Nat := %s\n" % m.group(1))
+    out.append("end Gen\nend Dsp\n")
+    return "\n".join(out)
+
+
+# ------------------------------------------------------------------------------------------
 UNITS = {}
 
 
@@ -689,6 +740,7 @@ def unit(name, sources):
 
 unit("Cmplx", ["include/dsplib/types.h"])(gen_cmplx)
 unit("Slice", ["include/dsplib/slice.h"])(gen_slice)
+unit("Consts", ["lib/primes.cpp", "lib/fft/primes-fft.h", "lib/fft/fft.cpp", "CMakeLists.txt"])(gen_consts)
 
 
 def source_sha(sources):
